@@ -409,6 +409,7 @@ class SignalNamespace:
     def __init__(self, name_dict, reserved_keywords=set()):
         self.counts        = {k: 1 for k in reserved_keywords}
         self.sigs          = {}
+        self.names         = set()
         self.name_dict     = name_dict
         self.clock_domains = dict()
 
@@ -450,8 +451,12 @@ class SignalNamespace:
         n = self.sigs.get(sig)
         if n is None:
             n = self.counts.get(sig_name, 0)
+            # Skip numbers whose full name is already used by another signal (ex: x, x and x_1).
+            while (sig_name if n == 0 else f"{sig_name}_{n}") in self.names:
+                n += 1
             self.sigs[sig] = n
             self.counts[sig_name] = n + 1
+            self.names.add(sig_name if n == 0 else f"{sig_name}_{n}")
         # If the count is greater than 0, append it to the signal name.
         if n > 0:
             sig_name += f"_{n}"
